@@ -62,8 +62,15 @@ def K(t, attr):
     if k == 'str': return 'B%d' % t
     return 100.0 * (t + 1)
 
+def N(t, attr):
+    """value of a row created by thread t: differs from the blind-write constant K, so that a later blind write changes the row"""
+    k = KIND[attr]
+    if k == 'int': return 1000 * (t + 1) + 500
+    if k == 'str': return 'N%d' % t
+    return 100.0 * (t + 1) + 0.25
+
 def new_row(t, o):
-    return dict(id=o, x=K(t, 'x'), y=K(t, 'y'), s=K(t, 's'), f=K(t, 'f'), n=K(t, 'n'), v=K(t, 'v'), z=K(t, 'z'))
+    return dict(id=o, x=N(t, 'x'), y=N(t, 'y'), s=N(t, 's'), f=N(t, 'f'), n=N(t, 'n'), v=N(t, 'v'), z=N(t, 'z'))
 
 def P(name, *ops, **flags):
     return dict(name=name, ops=list(ops), flags=flags)
@@ -303,6 +310,9 @@ def mon_stale_read(v, counters):
             written = {}
             for _, d in tr['notes']:
                 if d[0] == 'w': written.setdefault(d[1], set()).add(d[2])
+                elif d[0] == 'new': written.pop(d[1], None)        # the row did not exist before this commit
+            for _, d in tr['notes']:
+                if d[0] == 'new': written.pop(d[1], None)
             for step, d in tr['notes']:
                 if d[0] == 'r' and (c is None or step < c): known[(d[1], d[2])] = d[3]
             if tr['committed'] and c is not None:
